@@ -119,4 +119,29 @@ CHECKS.update({
  },
 })
 
+REPO_NOTE = ("Bounded by CrlRepo.tla (one location, one loader/refresher, 2 reader processes, 2-3 keys, 2-3 runs, origins good/badsig/truncated/garbage/unreachable x all key sets, staging-store create and insert faults, crash at every loader pc on disk). "
+             "The replay is exhaustive at hook granularity for one loader with lookups / crash images / listings placed at every loader step; finer interleavings of the readers are covered by the TLC proof and the free-running stress. Trusts TLC, the hook placement (swap events fire under the entry write lock) and cp -r as a SIGKILL image.")
+CHECKS.update({
+ "C08": {
+  "text": "CrlRepo.tla models updateCrlEntry/loadCRL step by step (pc = last verif hook) with readers under the entry RW lock: Atomic (a reader in its critical section sees one complete accepted list), Monotone (per reader and in real-time order), FailKeeps for every failure branch, SwapLocked, LockOK are proved by TLC on the full model. Scenarios (first load and refresh with every outcome, each followed by a successful refresh) are replayed on a real repository with the loader parked at each hook; three concurrent lookups (old-only, new-only, common) at every stop must equal the complete previous or the complete new list - never empty, partial, mixed or an error - and never the previous list after the new one.",
+  "note": REPO_NOTE,
+  "technique": "TLC on the step-level repository model (CrlRepo.tla) + gated schedule replay through blocking verif hooks",
+ },
+ "C12": {
+  "text": "CrlRepo.tla with Crash enabled at every loader pc and Restart (temp sweep; Loaded := meta record present) proves CrashSafe, OnlyAccepted and NoResidue. On the real disk backend work_dir is copied while the loader is parked at each hook (after download, staging, parsing, before the swap, between each of the six steps of the LevelDB directory swap, after it) for first loads and refreshes with acceptable and rejected documents; a fresh validator is provisioned on every image (origin serving garbage, crl_cdp_strict on): it may treat the location as loaded only with the complete previous or complete new accepted list, and no crl_*_tmp artefact may survive Provision. The model's prediction of the post-restart content is compared too (differences are drift).",
+  "note": REPO_NOTE + " SIGKILL semantics, not power loss. The random-instant SIGKILL of a child process is not built yet (listed in DESIGN.md as future work).",
+  "technique": "TLC crash/restart model (CrlRepo.tla) + crash-image replay at every hook of the real swap protocol",
+ },
+ "C13": {
+  "text": "Three layers. (1) EntryLocks.tla: NoDeadlock as an invariant over the wait-for relation and the lockset discipline of the entry lock protocol; CrlRepo.tla: LockOK, SwapLocked. (2) Sequential histories of Revocation.tla incl. 'last refresh failed signature verification' replayed with a 30 s watchdog per call. (3) A child built with the Go race detector executes: the gated loader scenarios of CrlRepo.tla with lookups fired at every hook without harness-induced ordering, fetch_background loads racing handshakes, concurrent OCSP lookups across cache expiry, and a free-running stress (4 readers, refresher with failing refreshes, ticks, CDP handshakes, Cleanup) whose lookups and swaps are logged (swap event inside the hook under the write lock, version counter at call start/end) and validated by TLC against TraceRepo.tla: every answer must be explained by one complete list version inside its call window. Race reports, HANG lines and crashes are violations.",
+  "note": "The race detector only sees executed accesses; schedules are exhaustive at hook granularity for loader x lookup, sampled in the stress. Watchdogs are 30-60 s against steps that take milliseconds (longest legitimate retry loop: 5 s). Trusts TLC, the Go race detector, and the hook placement.",
+  "technique": "TLC deadlock/lockset invariants (EntryLocks.tla, CrlRepo.tla) + gated schedules and stress under the Go race detector + TLC trace validation of verdict linearizability (TraceRepo.tla)",
+ },
+ "C20": {
+  "text": "CrlRepo.tla's file-system variables (store directory, staging store, store moved aside, download file) with NoResidue, LiveKept, OnlyAccepted proved by TLC; every step of the replayed loader scenarios is followed by a classified work_dir listing (no crl_*_tmp artefact when quiescent after successful and failing runs, no unknown file, nothing next to work_dir, store directory present while loaded). Hostile location strings (traversal, encoded separators, 1800 characters, unicode, temp-pattern look-alikes, pairs equal after normalisation) are taken in as CDPs on both backends: identifiers stay inside work_dir, distinct locations get distinct stores, the same location maps to the same store after restart, foreign files resembling the temp pattern survive the startup sweep. k provision/cleanup cycles: work_dir deregistered, no goroutine growth, re-provision on the same directory works.",
+  "note": REPO_NOTE + " Location strings are a fixed list of classes, not an enumeration.",
+  "technique": "TLC residue invariants (CrlRepo.tla) + listing trace of gated replays + location-string and lifecycle replay",
+ },
+})
+
 PENDING = {}
